@@ -91,6 +91,35 @@ def handle (j : Json) : R (List (String × Json)) := do
     | .error _ =>
       let notRun := (impl.getObjVal? "not_run").isOk
       return [("model", Json.null), ("oracle", Json.mkObj [("returned", bool notRun)]), ("not_run", bool notRun)]
+  else if k == "lkh_pts" then
+    -- Euclidean costs (f64 square roots in the implementation): the cost clause is decided on square roots scaled by
+    -- 10^12 and rounded down, with one unit of slack per leg; termination, permutation and start are exact
+    let path ← listF asNat j "path"
+    let pts ← listF (fun p => do
+      let a ← asArr p
+      pure ((← asInt a[0]!), (← asInt a[1]!))) j "pts"
+    let sq (a b : Nat) : Nat :=
+      let p := pts.getD a (0, 0)
+      let q := pts.getD b (0, 0)
+      ((p.1 - q.1) * (p.1 - q.1) + (p.2 - q.2) * (p.2 - q.2)).toNat
+    let scaled (a b : Nat) : Nat := Nat.sqrt (sq a b * 10 ^ 24)
+    let closed (q : List Nat) : Nat :=
+      match q with
+      | [] => 0
+      | h :: _ => ((q.zip (q.drop 1 ++ [h])).map (fun e => scaled e.1 e.2)).sum
+    match impl.getObjVal? "paths" with
+    | .ok ps =>
+      let paths ← listOf (listOf asNat) ps
+      let nodup := nodupB path
+      return [("model", Json.null), ("oracle", Json.mkObj [
+        ("returned", bool true),
+        ("nonempty", bool (!paths.isEmpty)),
+        ("perm", bool (!nodup || paths.all (fun q => Lkh.isPermOf q path))),
+        ("start", bool (paths.all (fun q => Lkh.sameStart q path))),
+        ("cost_not_above_input", bool (paths.all (fun q => closed q ≤ closed path + path.length + 1)))])]
+    | .error _ =>
+      let notRun := (impl.getObjVal? "not_run").isOk
+      return [("model", Json.null), ("oracle", Json.mkObj [("returned", bool notRun)]), ("not_run", bool notRun)]
   else if k == "dbscan" then
     let n ← natF j "n"
     let points ← listF asNat j "points"
